@@ -140,7 +140,7 @@ def pack_q(nr, nout, short, tiers=("quick", "thorough"), timeout=1200):
 
 def recv_q(nr, nout, listing, tiers=("quick", "thorough"), timeout=2400):
     return Q("recv_n%d_o%d_%s" % (nr, nout, "kfclass" if listing else "ok"), ["../C13/recv.c"],
-             defs=["NR=%d" % nr, "NOUT=%d" % nout, "VP_NOUT=%d" % nout, "LISTING=%d" % listing, "TOPO=1"],
+             defs=["NR=%d" % nr, "NOUT=%d" % nout, "VP_NOUT=%d" % nout, "LISTING=%d" % listing, "TOPO=1"] + fixdefs(),
              unwind=max(nr, nout) + 2, unwindset=us_recv(nout), object_bits=12, patches=[PATCH_H, PATCH_KEY],
              units=[RD_MPI, RD_C, RD_H], timeout=timeout, tiers=tiers, incs=[C13DIR],
              info={"symbolic": ["root", "receiving rank", "sender", "destination rank set of every output", "control-flow mask"]
